@@ -339,6 +339,7 @@ def check_states(ctx, num=6):
 def run(ctx):
     check_flag(ctx, 1)
     check_validation(ctx, 2)
+    ob_errors_propagate(ctx, 2, "a suspension that is not allowed is rejected with an error")
     check_duration(ctx, 3)
     pool.ob_phases(ctx, 4)
     from . import c09
